@@ -278,6 +278,64 @@ Section CallThms.
     eapply mresolve_lower; [exact L|exact Em|exact Hb].
   Qed.
 
+  (* any lower bound that reached the solver is accepted by the value chosen *)
+  Lemma tagged_lower_accepted : forall (l : list (@tagged V)) k v,
+    resolve_ok O limit l = true -> In (k, LowerBound v) l -> acc O (sol_of O limit l k) v = true.
+  Proof.
+    intros l k v Hr Hk.
+    pose proof (bounds_for_in k _ l Hk) as Hb.
+    assert (Hok : is_err (solved O limit l k) = false).
+    { unfold resolve_ok in Hr. rewrite forallb_forall in Hr. specialize (Hr k).
+      destruct (is_err (solved O limit l k)); [|reflexivity].
+      assert (negb true = true); [|discriminate]. apply Hr. unfold tvs. apply in_map_iff. exists (k, LowerBound v). auto. }
+    unfold sol_of. unfold solved in *. destruct (bounds_for k l) as [|b0 bs] eqn:Eb; [destruct Hb|].
+    rewrite <- Eb in *.
+    destruct (mresolve O limit (bounds_for k l)) as [w|] eqn:Em; [|discriminate].
+    eapply mresolve_lower; [exact L|exact Em|exact Hb].
+  Qed.
+
+  Lemma lower_gen_in : forall s k v l0, lower_gen O limit s k v = Some l0 -> In (k, LowerBound v) l0.
+  Proof.
+    intros s k v l0 H. unfold lower_gen in H.
+    destruct (is_err (mresolve O limit (arg_bounds (decl_of s k) v))); [discriminate|].
+    injection H as <-. left. reflexivity.
+  Qed.
+
+  (* the same through the generic forms: the element type of a list[T_k] argument, the key and
+     value types of a dict[T_k, T_j] argument and the result type of a Callable[.., T_j] argument
+     are accepted by the values chosen — so the second pass can only fail on concretely typed
+     parameters and on a callback's parameter type (the upper-bound position) *)
+  Theorem generic_lower_positions_accepted : forall s (b : list (cparam * barg)) l p,
+    pass1 O limit s b = inr l -> resolve_ok O limit l = true ->
+    (forall k e, In (p, BVals [AList e]) b -> ann p = AnnList k -> acc O (sol_of O limit l k) e = true) /\
+    (forall k j kk vv, In (p, BVals [ADict kk vv]) b -> ann p = AnnDict k j ->
+        acc O (sol_of O limit l k) kk = true /\ acc O (sol_of O limit l j) vv = true) /\
+    (forall k j pv qv, In (p, BVals [AFun pv qv]) b -> ann p = AnnFun k (RVar j) ->
+        acc O (sol_of O limit l j) qv = true).
+  Proof.
+    intros s b l p Hp Hr. repeat split.
+    - intros k e Hin Ea.
+      destruct (pass1_incl s b l p [AList e] Hp Hin) as [l0 [Hg Hi]]; [rewrite Ea; reflexivity|].
+      rewrite Ea in Hg. cbn in Hg. apply both_some in Hg. destruct Hg as [a [c [Ha [_ ->]]]].
+      apply tagged_lower_accepted; [exact Hr|]. apply Hi, in_or_app. left. eapply lower_gen_in, Ha.
+    - destruct (pass1_incl s b l p [ADict kk vv] Hp H) as [l0 [Hg Hi]]; [rewrite H0; reflexivity|].
+      rewrite H0 in Hg. cbn in Hg. apply both_some in Hg. destruct Hg as [a [c [Ha [_ ->]]]].
+      apply both_some in Ha. destruct Ha as [a1 [a2 [H1 [H2 ->]]]].
+      apply tagged_lower_accepted; [exact Hr|]. apply Hi, in_or_app. left. apply in_or_app. left.
+      eapply lower_gen_in, H1.
+    - destruct (pass1_incl s b l p [ADict kk vv] Hp H) as [l0 [Hg Hi]]; [rewrite H0; reflexivity|].
+      rewrite H0 in Hg. cbn in Hg. apply both_some in Hg. destruct Hg as [a [c [Ha [_ ->]]]].
+      apply both_some in Ha. destruct Ha as [a1 [a2 [H1 [H2 ->]]]].
+      apply tagged_lower_accepted; [exact Hr|]. apply Hi, in_or_app. left. apply in_or_app. right.
+      eapply lower_gen_in, H2.
+    - intros k j pv qv Hin Ea.
+      destruct (pass1_incl s b l p [AFun pv qv] Hp Hin) as [l0 [Hg Hi]]; [rewrite Ea; reflexivity|].
+      rewrite Ea in Hg. cbn in Hg. apply both_some in Hg. destruct Hg as [a [c [Ha [_ ->]]]].
+      apply both_some in Ha. destruct Ha as [a1 [a2 [H1 [H2 ->]]]].
+      apply tagged_lower_accepted; [exact Hr|]. apply Hi, in_or_app. left. apply in_or_app. right.
+      eapply lower_gen_in, H2.
+  Qed.
+
   (* the inferred type of `-> T_k` contains every literal passed (positionally or by
      keyword) for a parameter annotated T_k *)
   Theorem identity_result_member : forall s c b p k o,
